@@ -23,7 +23,15 @@ LEADING_REPEAT = int(__import__("os").environ.get("VERIF_C07_LEADING_REPEAT", "0
 MIN_WIDTH_CAPS_EXPAND = int(__import__("os").environ.get("VERIF_C07_MIN_WIDTH_CAPS_EXPAND", "0"))
 # 1 = with ratio columns the width reserved for the other columns is sum(_range.maximum), not sum(_range.maximum or 1); 0 = repaired
 FIXED_RAW_MAXIMUM = int(__import__("os").environ.get("VERIF_C07_FIXED_RAW_MAXIMUM", "0"))
-FLAGS = (LEADING_REPEAT, MIN_WIDTH_CAPS_EXPAND, FIXED_RAW_MAXIMUM)
+# 1 = `_calculate_column_widths` of a table WITHOUT columns reaches `ratio_distribute(.., [])` and its `assert total_ratio > 0`
+#     (Table(expand=True) / Table(width=10) / Table(min_width=10) raise AssertionError); 0 = `return []` at once
+#     (pending_fixes/C14-table-no-columns.diff)
+NO_COLUMNS_ASSERTS = int(__import__("os").environ.get("VERIF_C07_NO_COLUMNS_ASSERTS", "1"))
+# 1 = flexible widths are used as ratio_distribute returns them (a trailing ratio=0 column gets what is left: negative when there
+#     is no room, so widths can be negative / sum to 0 and the final ratio_distribute asserts); 0 = clamped with max(0, width)
+#     (pending_fixes/C14-table-flexible-width-nonnegative.diff)
+FLEX_NEGATIVE = int(__import__("os").environ.get("VERIF_C07_FLEX_NEGATIVE", "1"))
+FLAGS = (LEADING_REPEAT, MIN_WIDTH_CAPS_EXPAND, FIXED_RAW_MAXIMUM, NO_COLUMNS_ASSERTS, FLEX_NEGATIVE)
 
 BOXES = [None, "HEAVY_HEAD", "CUSTOM", "ASCII", "SQUARE", "MINIMAL", "SIMPLE", "ROUNDED", "DOUBLE_EDGE", "HORIZONTALS", "SIMPLE_HEAVY",
          "MINIMAL_DOUBLE_HEAD", "ASCII_DOUBLE_HEAD", "HEAVY", "DOUBLE", "SQUARE_DOUBLE_HEAD", "MINIMAL_HEAVY_HEAD", "SIMPLE_HEAD",
@@ -265,11 +273,34 @@ def table_jobs(ctx):
             ratio_specs += [dict(s, avail=w) for w in (range(smin, 34) if not quick else list(range(smin, smin + 5)) + [20, 30])]
     for i in range(0, len(ratio_specs), 60):
         jobs.append((40, FLAGS, ratio_specs[i:i + 60]))
+    # ---- A3: tables WITHOUT columns, and ratio=0 columns at very narrow widths (the two assertion defects found by C14)
+    edge_specs = []
+    for ov in ({}, {"expand": True}, {"width": 10}, {"min_width": 10}, {"box": None, "expand": True}, {"show_edge": False}, {"title": "T", "expand": True},
+               {"box": "ASCII", "show_header": False, "caption": "cap"}, {"width": 0}, {"min_width": 0}, {"expand": True, "min_width": 3, "width": 4}):
+        for w in (0, 1, 2, 3, 7, 20):
+            edge_specs.append({"cols": [], "rows": [], "opts": dict(ov), "avail": w})
+    for cols in (
+        [{"header": ("s", ""), "footer": ("s", ""), "ratio": 1}, {"header": ("s", ""), "footer": ("s", ""), "ratio": 0}],
+        [{"header": ("s", "ab"), "footer": ("s", ""), "ratio": 2}, {"header": ("s", "c"), "footer": ("s", ""), "ratio": 0}, {"header": ("s", "some words"), "footer": ("s", "")}],
+        [{"header": ("s", "x"), "footer": ("s", ""), "ratio": 0}, {"header": ("s", "yy"), "footer": ("s", ""), "ratio": 1}],
+        [{"header": ("s", "abc"), "footer": ("s", ""), "ratio": 0}, {"header": ("s", ""), "footer": ("s", ""), "ratio": 0}],
+    ):
+        for c in cols:
+            c["overflow"] = "fold"
+        rows = [{"cells": [("s", "q" if i == 0 else "") for i in range(len(cols))], "end_section": False}]
+        for ov in ({"expand": True, "min_width": 5, "padding": (0, 0), "pad_edge": False}, {"expand": True, "padding": (0, 0)},
+                   {"expand": True}, {"expand": True, "box": None, "padding": (0, 0), "min_width": 5}, {"width": 6, "padding": (0, 0)},
+                   {"expand": True, "show_edge": False, "padding": (0, 0), "min_width": 2}):
+            for r in ([], rows):
+                for w in list(range(0, 12)) + [16, 25]:
+                    edge_specs.append({"cols": cols, "rows": r, "opts": dict(ov), "avail": w})
+    for i in range(0, len(edge_specs), 80):
+        jobs.append((40, FLAGS, edge_specs[i:i + 80]))
     # ---- B: seeded structured random tables: all options, column options, nested cells, ragged columns
     n_bundles = 64 if quick else 1500
     for bi in range(n_bundles):
-        ncols = rng.choice([1, 2, 2, 3, 3, 4, 5, 6])
-        nrows = rng.choice([0, 1, 1, 2, 3, 4, 8]) if ncols <= 3 else rng.choice([0, 1, 2, 3])
+        ncols = rng.choice([1, 2, 2, 3, 3, 4, 5, 6]) if rng.random() > 0.03 else 0
+        nrows = (rng.choice([0, 1, 1, 2, 3, 4, 8]) if ncols <= 3 else rng.choice([0, 1, 2, 3])) if ncols else 0
         spec = base_spec(rng, ncols, nrows, nested=True)
         if rng.random() < 0.12 and ncols >= 2:
             spec["cols"][-1]["late"] = True
@@ -292,6 +323,8 @@ def table_jobs(ctx):
             if rng.random() < 0.15:
                 o["width"] = rng.choice([structural_min(s), structural_min(s) + 3, 12, 25, 40])
             specs += [dict(s, avail=w) for w in widths_for(rng, s, 3, dense=3)]
+            if rng.random() < 0.15:   # far below the structural minimum: nothing may raise or go negative there either
+                specs.append(dict(s, avail=rng.randint(0, max(1, structural_min(s)))))
         jobs.append((64, FLAGS, specs))
     return jobs
 
@@ -370,7 +403,10 @@ MANIFEST = {
     "appear row by row, header / insertion order / footer, each on lines of its own); fold_cells_in_column + every_cell_line_shown (on a "
     "row's line k, column j's span - at a proved cell offset and width - holds exactly line k of that cell's own rendering, verbatim, or "
     "blanks); plus the arithmetic core (ratio_distribute sums to total, ratio_reduce bounds, _collapse_widths termination and "
-    "post-condition).  Witnesses by `decide`: old_table_rect_fails (F16, leading >= 2), old_expand_exact_fails (expand + min_width), "
+    "post-condition).  calc_widths_total / table_render_total / rich_measure_total (with the two assertion defects repaired, "
+    "`_calculate_column_widths`, `__rich_console__` and `__rich_measure__` never reach `assert total_ratio > 0` for ANY table with "
+    "non-negative options and cells measuring >= 0 - zero columns, ratio 0 columns, any available width included).  "
+    "Witnesses by `decide`: old_no_columns_asserts, old_flex_negative_asserts, old_table_rect_fails (F16, leading >= 2), old_expand_exact_fails (expand + min_width), "
     "old_expand_ratio_fails (ratio column beside a zero-width column).  "
     "Tie: the model's column widths and rendered lines equal `_calculate_column_widths` / `Console.render(table)` character for "
     "character on ~2.6k (quick) / ~50k (thorough) generated tables (1..6 columns, 0..8 rows, all table and column options, nested "
@@ -384,8 +420,9 @@ MANIFEST = {
     "`ratioReduce 50 [1,1] [100,1] [100,1] = [75,0]`) - outside the statement.  Cells, title and caption are oracles (contract checked per "
     "tabulated entry: rendered lines have exactly the requested width, 0 <= min <= max <= w); that a fold column's cell keeps every "
     "non-whitespace character is C02's theorem, here only evaluated on real output.  Not modelled: styles/row_styles, Box.substitute "
-    "(legacy_windows / ascii_only consoles), Table.__rich_measure__.  Domain of the direct evaluation: available width >= structural "
-    "minimum (1 cell per free column, width/min_width + padding otherwise), ratio None or >= 1.  Trusted: Lean kernel, axioms "
+    "(legacy_windows / ascii_only consoles).  Table.__rich_measure__ is modelled (`Table.richMeasure`) and compared per table.  "
+    "Tables without columns are compared (widths, lines, measure, the AssertionError) but are outside the rectangle statement.  Domain of the direct evaluation: 'no negative column width' everywhere; the rest at available width >= structural "
+    "minimum (1 cell per free column, width/min_width + padding otherwise), exactness / positivity with ratio None or >= 1.  Trusted: Lean kernel, axioms "
     "propext/Classical.choice/Quot.sound, translators harness/tables.py + harness/gen/table_boxes.py, the correspondence harness.  "
     "Code-variant flags in this file match today's rich: the three defects (F16 table-leading-multi, table-expand-min-width, "
     "table-expand-ratio-zero-width-column) print VIOLATION until pending_fixes/C07-*.diff are applied and the flags flipped "
